@@ -115,7 +115,7 @@ pub fn check(case: &Case, obs: &Obs) -> CheckResult {
 }
 
 fn case_strategy() -> impl Strategy<Value = Case> {
-    message_with(fixed_header(any::<bool>().boxed()), 5, 5, true, true)
+    crate::fixtree::fixed_message(any::<bool>().boxed(), 5, 5, true, true)
         .prop_flat_map(|msg| {
             let per_unit: Vec<BoxedStrategy<Vec<Pull>>> = msg
                 .units
